@@ -291,6 +291,49 @@ type txObs struct {
 	allocExact          bool
 	serPanic, sizePanic string
 	capDiff             string
+	fields              string // the decoded numbers (fieldsOf), "" if an element is nil
+}
+
+// fieldsOf / refFields: the decoded fields as NUMBERS in one token (same format as the oracle's fieldsTok): version,
+// lock_time, per input first 4 bytes of the previous hash . index . sequence . len(scriptSig), per output value . len(script),
+// witness item counts. Everything else in the comparison goes through re-serialisations and hashes, where a field that is
+// read and written in the same wrong way cancels out.
+func fieldsOf(tx *btc.Tx) string {
+	var ins, outs []string
+	for _, in := range tx.TxIn {
+		ins = append(ins, fmt.Sprintf("%s.%d.%d.%d", hex.EncodeToString(in.Input.Hash[:4]), in.Input.Vout, in.Sequence, len(in.ScriptSig)))
+	}
+	for _, o := range tx.TxOut {
+		outs = append(outs, fmt.Sprintf("%d.%d", o.Value, len(o.Pk_script)))
+	}
+	w := "-"
+	if tx.SegWit != nil {
+		var c []string
+		for _, st := range tx.SegWit {
+			c = append(c, strconv.Itoa(len(st)))
+		}
+		w = strings.Join(c, ",")
+	}
+	return fmt.Sprintf("F%d/%d/%s/%s/%s", tx.Version, tx.Lock_time, strings.Join(ins, ";"), strings.Join(outs, ";"), w)
+}
+
+func refFields(t *refTx) string {
+	var ins, outs []string
+	for _, in := range t.ins {
+		ins = append(ins, fmt.Sprintf("%s.%d.%d.%d", hex.EncodeToString(in.hash[:4]), in.idx, in.seq, len(in.script)))
+	}
+	for _, o := range t.outs {
+		outs = append(outs, fmt.Sprintf("%d.%d", o.value, len(o.script)))
+	}
+	w := "-"
+	if t.hasWit {
+		var c []string
+		for _, st := range t.wit {
+			c = append(c, strconv.Itoa(len(st)))
+		}
+		w = strings.Join(c, ",")
+	}
+	return fmt.Sprintf("F%d/%d/%s/%s/%s", t.ver, t.lock, strings.Join(ins, ";"), strings.Join(outs, ";"), w)
 }
 
 var allocSample = [1]metrics.Sample{{Name: "/gc/heap/allocs:bytes"}}
@@ -365,6 +408,9 @@ func observeTx(raw []byte, exactAlloc bool) (ob txObs) {
 		if x == nil {
 			ob.nilElem = true
 		}
+	}
+	if !ob.nilElem {
+		ob.fields = fieldsOf(tx)
 	}
 	func() {
 		defer func() {
@@ -461,6 +507,9 @@ func checkTx(kind string, raw []byte) {
 				if rn != ob.n {
 					fail("tx-consumed", fmt.Sprintf("consumed=%d, reference %d", ob.n, rn))
 				}
+				if rf := refFields(&ref); ob.fields != rf && !ob.nilElem {
+					fail("tx-fields", "the decoded fields (version, lock_time, prevout index, sequence, value, lengths) are not the ones the reference parser reads: "+firstDiffTok(ob.fields, rf))
+				}
 				strip, total := refSerialize(&ref, false), refSerialize(&ref, true)
 				if !bytes.Equal(ob.ser, strip) {
 					fail("tx-serialize", "Serialize() differs from the stripped BIP144 serialisation")
@@ -543,8 +592,8 @@ func checkTx(kind string, raw []byte) {
 		if ob.segwit {
 			sw = "1"
 		}
-		got = fmt.Sprintf("ok %d %d %s %d %d %s %s %s %s %d %d %d %d %d", ob.n, ob.nws0, sw, ob.nin, ob.nout, vlib.Hex(ob.serNew), vlib.Hex(ob.ser),
-			vlib.Hex(ob.hash), vlib.Hex(ob.wtxid), ob.size, ob.nws, ob.weight, ob.vsize, ob.txsize)
+		got = fmt.Sprintf("ok %d %d %s %d %d %s %s %s %s %d %d %d %d %d %s", ob.n, ob.nws0, sw, ob.nin, ob.nout, vlib.Hex(ob.serNew), vlib.Hex(ob.ser),
+			vlib.Hex(ob.hash), vlib.Hex(ob.wtxid), ob.size, ob.nws, ob.weight, ob.vsize, ob.txsize, ob.fields)
 	}
 	if got == ans {
 		r.TieOK()
@@ -564,6 +613,25 @@ func checkTx(kind string, raw []byte) {
 			r.TieFail("tie-txsize", fmt.Sprintf("model txSize=%s, btc.TxSize=%d; input=%s", a2, ob.txsize, short(raw)), rep("tx", raw))
 		}
 	}
+}
+
+// firstDiffTok: where two field tokens differ (they can be long)
+func firstDiffTok(a, b string) string {
+	i := 0
+	for i < len(a) && i < len(b) && a[i] == b[i] {
+		i++
+	}
+	cut := func(s string) string {
+		lo, hi := i-24, i+24
+		if lo < 0 {
+			lo = 0
+		}
+		if hi > len(s) {
+			hi = len(s)
+		}
+		return s[lo:hi]
+	}
+	return fmt.Sprintf("at char %d: decoded …%s… reference …%s…", i, cut(a), cut(b))
 }
 
 func firstDiff(a, b string) string {
@@ -812,6 +880,23 @@ type blkObs struct {
 	mpanic   string
 }
 
+// blockErrClass: the error of NewBlock / UpdateContent / BuildTxListExt by its EXACT message. A message this table does not
+// know (a new error site in lib/btc/block.go) becomes "unknown-error:…", which no model answer equals: the tie breaks
+// instead of the error being filed under one of the known classes.
+func blockErrClass(er error, where string) string {
+	switch er.Error() {
+	case "Block too short":
+		return "tooShort"
+	case "block's txn_count field corrupt - RPC_Result:bad-blk-length":
+		return "badCount"
+	case "NewTx failed":
+		if where == "BuildTxListExt" {
+			return "txFailed"
+		}
+	}
+	return "unknown-error:" + where + ":" + strings.ReplaceAll(er.Error(), " ", "_")
+}
+
 func observeBlock(raw []byte, dohash bool) (ob blkObs) {
 	defer func() {
 		if x := recover(); x != nil {
@@ -821,20 +906,14 @@ func observeBlock(raw []byte, dohash bool) (ob blkObs) {
 	b := exact(raw)
 	bl, er := btc.NewBlock(b)
 	if er != nil {
-		if strings.Contains(er.Error(), "too short") {
-			ob.err = "tooShort"
-		} else {
-			ob.err = "badCount"
-		}
+		ob.err = blockErrClass(er, "NewBlock")
 		return
 	}
 	er = bl.BuildTxListExt(dohash)
 	ob.err = "none"
 	if er != nil {
-		if strings.Contains(er.Error(), "NewTx failed") {
-			ob.err = "txFailed"
-		} else {
-			ob.err = "badCount"
+		ob.err = blockErrClass(er, "BuildTxListExt")
+		if ob.err != "txFailed" {
 			return
 		}
 	}
@@ -1469,6 +1548,9 @@ func main() {
 	}
 
 	phase("blocks")
+	// 8b. the exported helpers called directly on short / malformed buffers (direct.go)
+	directStream(g)
+	phase("direct-helpers")
 	// 9. one Block object through histories of calls
 	objStream(g)
 	phase("block-objects")
